@@ -58,6 +58,119 @@ pub fn judge_image(image: &[u8], exec: &Executed) -> Option<(String, String)> {
     None
 }
 
+/// A program whose coordinate metadata is chosen so that the FIRST version of the page holding
+/// it, as it reaches the device, carries a special checksum: the checksum of the version of that
+/// page that was on the device before (content changed, checksum did not), or - for a page that
+/// is new - 0 (`alt`: 0xFFFFFFFF), the values a page buffer holds before any checksum was computed. CRC-32C is affine over GF(2): each of 48
+/// characters of the string toggles between 'A' and 'C' (one bit), the 48 effect vectors are
+/// reduced by Gaussian elimination. None if the marker does not lie in one page write or the
+/// system has no solution.
+pub fn program_with_page_checksum(seed: u64, alt: bool) -> Option<Program> {
+    use crate::model::Bytes;
+    use crate::refcodec::page::crc32c;
+    use crate::rng::Rng;
+    use crate::simdisk::*;
+    const N: usize = 48;
+    let mut g = Rng::new(seed);
+    let mut calls = Vec::new();
+    if g.chance(1, 2) {
+        // something in front: the XML then starts elsewhere in the page
+        let n = g.usize_below(600);
+        calls.push(Call::Blob { data: Bytes::draw(&mut g, n), pipe: Chunk::Full, fail_after: None });
+    }
+    // short: everything in page 0; long: the string lies in a later page of the XML
+    let fill = if g.chance(1, 2) { g.usize_below(200) } else { 700 + g.usize_below(1500) };
+    let marker = "A".repeat(N);
+    let text = |m: &str| format!("{}{}{}", "q".repeat(fill), m, "z");
+    calls.push(Call::CoordMeta(Some(text(&marker))));
+    let at = calls.len() - 1;
+    let mut prog = Program { guid: crate::gen::gen_guid(&mut g), calls, end: End::Finalize, knob: None, on_error: OnError::Stop };
+    let first_write_with = |prog: &Program, needle: &[u8]| -> Option<(Vec<u8>, usize, Option<u32>)> {
+        let ctx = new_ctx(vec![]);
+        {
+            let mut c = ctx.borrow_mut();
+            c.record_ops = true;
+            c.record_writes = true;
+        }
+        let disk = SimDisk::new(&ctx, DEV_DISK, Vec::new(), &Chunk::Full);
+        let e = exec_program(prog, &ctx, &disk);
+        if !e.completed {
+            return None;
+        }
+        let log = ctx.borrow();
+        let mut before: std::collections::BTreeMap<u64, u32> = std::collections::BTreeMap::new();
+        for o in log.log.iter().filter(|o| o.kind == OpKind::Write && o.moved == 1024) {
+            if let Some(d) = &o.data {
+                if let Some(p) = d[..1020].windows(needle.len()).position(|w| w == needle) {
+                    return Some((d.clone(), p, before.get(&o.offset).copied()));
+                }
+                before.insert(o.offset, u32::from_be_bytes(d[1020..1024].try_into().unwrap()));
+            }
+        }
+        None
+    };
+    let (page, pos, prev) = first_write_with(&prog, marker.as_bytes())?;
+    let target = match (prev, alt) {
+        (Some(c), false) => c,
+        (Some(c), true) => !c,
+        (None, false) => 0,
+        (None, true) => u32::MAX,
+    };
+    let base = crc32c(&page[..1020]);
+    // effect of toggling character i ('A' 0x41 <-> 'C' 0x43: bit 1)
+    let mut rows: Vec<(u32, u64)> = Vec::new(); // (effect vector, which characters)
+    for i in 0..N {
+        let mut p = page[..1020].to_vec();
+        p[pos + i] ^= 0x02;
+        rows.push((crc32c(&p) ^ base, 1u64 << i));
+    }
+    // Gaussian elimination: express base ^ target as a combination of the effect vectors
+    let mut want = base ^ target;
+    let mut chosen = 0u64;
+    let mut basis: Vec<(u32, u64)> = Vec::new();
+    for (mut v, mut m) in rows {
+        for (bv, bm) in &basis {
+            let top = 31 - bv.leading_zeros();
+            if v >> top & 1 == 1 {
+                v ^= bv;
+                m ^= bm;
+            }
+        }
+        if v != 0 {
+            basis.push((v, m));
+            basis.sort_by(|a, b| b.0.cmp(&a.0));
+        }
+    }
+    for (bv, bm) in &basis {
+        let top = 31 - bv.leading_zeros();
+        if want >> top & 1 == 1 {
+            want ^= bv;
+            chosen ^= bm;
+        }
+    }
+    if want != 0 {
+        return None;
+    }
+    let tuned: String = (0..N).map(|i| if chosen >> i & 1 == 1 { 'C' } else { 'A' }).collect();
+    prog.calls[at] = Call::CoordMeta(Some(text(&tuned)));
+    // (no confirmation run: under a defect that reacts to this checksum the tuned program
+    // behaves differently from the one it was computed from - which is the point)
+    if std::env::var("E57SIM_TRACE").is_ok() {
+        eprintln!("crc-tuned program: prev={prev:?} target={target:08x} pos={pos} calls={}", prog.calls.len());
+    }
+    Some(prog)
+}
+
+fn is_crc_tuned(prog: &Program) -> bool {
+    prog.calls.iter().any(|c| match c {
+        Call::CoordMeta(Some(s)) => {
+            let t = s.trim_start_matches('q');
+            t.len() == 49 && t.ends_with('z') && t[..48].chars().all(|c| c == 'A' || c == 'C') && t.contains('C')
+        }
+        _ => false,
+    })
+}
+
 impl Prop for C02 {
     type Case = WriterCase;
     fn id(&self) -> &'static str {
@@ -66,7 +179,7 @@ impl Prop for C02 {
     fn meta(&self) -> Meta {
         Meta {
             level: "exploration",
-            rule: "same program space as C01/C06 (placement sweep over section start residues, knob on/off) with metadata strings from the full token pool (incl. '<', '&', quotes, ']]>', whitespace-only, astral code points); every successfully finalized image is judged by refcodec: fsck rules (whole pages, bitwise CRC-32C big-endian on every page, header fields, XML well-formed and namespace-correct by an own parser AND roxmltree, every fileOffset 4-byte aligned outside checksum bytes on a section header of the right id, section length / packet chain / packet length / stream table / zero padding consistency, blob section length = round4(16+length), sections and XML pairwise disjoint) then decode(image) == points, blob bytes and metadata handed to the writer. Every rule is calibrated on the 19 bundled foreign files at start-up. Distinct/non-trivial as C01".into(),
+            rule: "same program space as C01/C06 (placement sweep over section start residues, knob on/off) with metadata strings from the full token pool (incl. '<', '&', quotes, ']]>', whitespace-only, astral code points); every successfully finalized image is judged by refcodec: fsck rules (whole pages, bitwise CRC-32C big-endian on every page, header fields, XML well-formed and namespace-correct by an own parser AND roxmltree, every fileOffset 4-byte aligned outside checksum bytes on a section header of the right id, section length / packet chain / packet length / stream table / zero padding consistency, blob section length = round4(16+length), sections and XML pairwise disjoint) then decode(image) == points, blob bytes and metadata handed to the writer. Every 512th run is a small program whose coordinate metadata is solved (CRC-32C is affine over GF(2)) so that the first version of its page reaches the device with the same checksum as the version of that page written before it (content changed, checksum not), or with the checksum 0 / 0xFFFFFFFF when the page is new. Every rule is calibrated on the 19 bundled foreign files at start-up. Distinct/non-trivial as C01".into(),
             assumptions: vec![
                 "refcodec is written from the format description and calibrated on E57RefImpl / libE57Format / las2e57 files".into(),
                 "metadata floats are finite; strings are XML 1.0 characters without CR".into(),
@@ -74,7 +187,7 @@ impl Prop for C02 {
             ],
             real: vec!["e57 crate writer paths".into()],
             stub: vec!["SimDisk".into(), "SimPipe".into(), "refcodec fsck/decoder (judge)".into(), "roxmltree as second opinion on well-formedness".into()],
-            required_probes: vec!["cv_header_straddles_page".into(), "blob_header_straddles_page".into(), "multi_packet_cloud_knob_off".into()],
+            required_probes: vec!["cv_header_straddles_page".into(), "blob_header_straddles_page".into(), "multi_packet_cloud_knob_off".into(), "page_version_with_solved_checksum".into()],
         }
     }
     fn preflight(&self) -> Result<(), String> {
@@ -87,7 +200,14 @@ impl Prop for C02 {
         }
     }
     fn generate(&self, rc: &RunCtx) -> WriterCase {
-        gen_case(rc, rc.index % 2 == 0, true)
+        let mut c = gen_case(rc, rc.index % 2 == 0, true);
+        if rc.index % 512 == 200 {
+            // a page whose first version carries the checksum 0 / 0xFFFFFFFF
+            if let Some(p) = program_with_page_checksum(rc.run_seed, (rc.index / 512) % 4 == 3) {
+                c.prog = p;
+            }
+        }
+        c
     }
     fn execute(&self, case: &WriterCase, st: &mut RunStats) -> Outcome<WriterCase> {
         st.evaluations = 1;
@@ -116,6 +236,7 @@ impl Prop for C02 {
             }
             Err(e) => return Outcome::fail("reopen-failed", format!("file judged well-formed does not open with the crate's reader: {e}")),
         }
+        st.probe("page_version_with_solved_checksum", is_crc_tuned(&case.prog));
         st.absorb_ctx(&w.ctx);
         let mut dg = crate::rng::Digest::new();
         dg.bytes(&w.image);
